@@ -40,6 +40,9 @@ pub enum Summary {
 
 #[derive(Clone, Debug, Serialize, Deserialize, PartialEq)]
 pub struct Lineage {
+    /// fail the next write to the artifact store with ENOSPC while this request runs
+    #[serde(default)]
+    pub fail_artifact_write: bool,
     pub handoff: bool,
     pub thread: u32,
     pub sel: Sel,
@@ -54,6 +57,8 @@ pub struct Scenario {
 }
 
 pub struct C10;
+
+static FAIL_ARTIFACT_WRITE: std::sync::atomic::AtomicBool = std::sync::atomic::AtomicBool::new(false);
 
 pub fn generate(run_seed: u64, tier: Tier) -> Scenario {
     let mut rng = Rng::derive(run_seed, "ops");
@@ -86,6 +91,7 @@ pub fn generate(run_seed: u64, tier: Tier) -> Scenario {
         };
         let handoff = rng.chance(1, 2);
         lineage_ops.push(Lineage {
+            fail_artifact_write: handoff && rng.chance(1, 6),
             handoff,
             thread: rng.below(3) as u32,
             sel,
@@ -179,11 +185,13 @@ pub fn execute(sc: &Scenario, env: &Env) -> (Outcome, RunStats) {
                 Summary::UnreadableArtifact => (None, Some("e".repeat(64))),
                 Summary::TextAndUnreadableArtifact => (Some(format!("summary {k}")), Some("d".repeat(64))),
             };
+            FAIL_ARTIFACT_WRITE.store(l.fail_artifact_write, std::sync::atomic::Ordering::SeqCst);
             let result = if l.handoff {
                 store.handoff(&parent, Some(format!("h{k}")), (md.clone(), art.clone()), from_message_id.clone(), from_seq, ("actor0".into(), "sim".into()))
             } else {
                 store.branch(&parent, Some(format!("b{k}")), from_message_id.clone(), from_seq, "actor0".into(), "sim".into())
             };
+            let fault_fired = l.fail_artifact_write && !FAIL_ARTIFACT_WRITE.swap(false, std::sync::atomic::Ordering::SeqCst);
             let after = seam::passthrough(|| model::parse_truth_file(&truth_path));
             let Ok(after) = after else {
                 sh.lock().unwrap().violation = Some(Violation { class: "truth_unparseable".into(), signature: "truth_unparseable_after_lineage".into(), detail: "events.jsonl does not parse after a branch/handoff".into() });
@@ -272,8 +280,11 @@ pub fn execute(sc: &Scenario, env: &Env) -> (Outcome, RunStats) {
                     return;
                 }
                 (Err(e), Ok((eseq, emid))) => {
-                    // an unreadable summary artifact id is the caller's problem; not judged
-                    if l.handoff && matches!(l.summary, Summary::UnreadableArtifact | Summary::TextAndUnreadableArtifact) {
+                    // an unreadable summary artifact id is the caller's problem; not judged;
+                    // after an injected artifact-store write error the request may fail
+                    if fault_fired {
+                        g.stats.bump("fault:artifact_write_enospc_refused", 1);
+                    } else if l.handoff && matches!(l.summary, Summary::UnreadableArtifact | Summary::TextAndUnreadableArtifact) {
                         g.stats.bump("refused_unreadable_artifact", 1);
                     } else {
                         fail(&mut g, "refused_valid_selector", format!("refused_valid_selector:{opname}:{}", sel_name(&l.sel)), format!("valid request refused with {e:?}; expected cut (seq {eseq}, message {emid:?})"));
@@ -283,7 +294,19 @@ pub fn execute(sc: &Scenario, env: &Env) -> (Outcome, RunStats) {
             }
         }
     });
-    let rep = sim.run(|_| Verdict::proceed());
+    let sh_obs = shared.clone();
+    let rep = sim.run(move |ev| {
+        if let crate::sched::Point::Fs(e) = &ev.point {
+            if e.kind.is_mutating()
+                && e.path.contains("/artifacts/")
+                && FAIL_ARTIFACT_WRITE.swap(false, std::sync::atomic::Ordering::SeqCst)
+            {
+                sh_obs.lock().unwrap().stats.bump("fault:artifact_write_enospc", 1);
+                return Verdict { decision: crate::seam::Decision::Fail(libc::ENOSPC), stop: false };
+            }
+        }
+        Verdict::proceed()
+    });
     world.close();
     let sim_time = storesim::end_run();
     let mut g = shared.lock().unwrap();
@@ -377,6 +400,6 @@ impl Check for C10 {
     }
     fn extra_coverage(&self, c: &BTreeMap<String, u64>) -> Value {
         let sels: BTreeMap<&String, &u64> = c.iter().filter(|(k, _)| k.starts_with("sel:")).collect();
-        json!({"selectors": sels, "accepted_checked": c.get("lineage_ok_checked").copied().unwrap_or(0), "refusals_checked": c.get("refusals_checked").copied().unwrap_or(0), "fault_counts": {}})
+        json!({"selectors": sels, "accepted_checked": c.get("lineage_ok_checked").copied().unwrap_or(0), "refusals_checked": c.get("refusals_checked").copied().unwrap_or(0), "fault_counts": {"artifact_write_enospc": c.get("fault:artifact_write_enospc").copied().unwrap_or(0)}})
     }
 }
